@@ -1,1 +1,2114 @@
-//! C09 - not built yet
+//! C09 - printing a syntax tree and parsing it back are inverse.
+//!
+//! Monitor: `oracle::c09_astcmp` (structural tree equality ignoring locations, floats by bits, ambiguous nodes of
+//! the re-read tree resolved with the type checker's own selection rule). Every case is an execution of the real
+//! `rssl_formatter::format` followed by the real preprocessor + parser on the printed text.
+//!
+//! Part 1 of this file: round trip primitive, contexts, minimisation, verdicts.
+//! Part 2: generators for source (a). Part 3: sources (b) and (c), run and replay.
+
+use crate::corpus;
+use crate::json::Json;
+use crate::oracle::c09_astcmp::{self as cmp, bloc, ident, loc, Conv, Sx, BIN_OPS, PARSER_MODIFIERS, UNARY_OPS};
+use crate::par::{self, Caught};
+use crate::report::{Ctx, Report, Tier};
+use crate::rng::{hash_str, Rng};
+use crate::rs::{self, Files, Front, Mode, Opts, Outcome, Tgt};
+use crate::CheckDef;
+use rssl::ast;
+use rssl::text::{Located, SourceLocation};
+use rssl_formatter::Target as FTarget;
+
+pub fn def() -> CheckDef {
+    CheckDef {
+        id: "C09",
+        salt: 0xC09,
+        rule: RULE,
+        assumptions: &[
+            "the comparison resolves ambiguous nodes of the re-read tree with the type checker's selection rule, taking as type names exactly the names that occur in type position (or are defined as struct/enum/template type parameter) in the original tree",
+            "generated trees use disjoint pools for type names and variable/function names, except constructor-style calls on type names (as the exporters build them)",
+            "rssl::compile's recorded tree (verif-hooks) is the tree that was printed into the returned source",
+        ],
+        min_distinct: (100_000, 1_000_000),
+        deadline_s: (50.0, 540.0),
+        run,
+        replay,
+    }
+}
+
+const RULE: &str = "sources: (a) trees built from the public ast types: exhaustive (outer operator slot x inner operator) pairs over 10 unary ops (prefix/postfix inc/dec, + - ! ~ * &), 30 binary ops (incl. all assignments and the comma), ternary, subscript, member, call (with/without template args), C cast, sizeof(expr), in return and initialiser context; every operator at the top of each of 18 contexts (return, expression statement, initialiser, aggregate initialiser, global initialiser, conditions of if/while/do/switch, for init/cond/inc, case label, array size, attribute argument, enum value, default parameter, template argument); all 316028 depth-3 nestings (complete in thorough, seed dependent sample of 30000 in quick) and all 4096 unary/cast/postfix chains of depth 3; random expressions to depth 6 over all node kinds + sizeof(type) in the same 18 contexts; literal sweep over all literal kinds with extreme values (0, 2^31, 2^32, 2^63, 2^64-1, f16/f32/f64 max, min normal, denormals, 17 digit values, values >= 2^63, infinities) in 8 positions; random statements (all statement forms, [attributes], nested if/else shapes, switch/case/default chains, for with declaration/expression/empty init, multiple declarators, aggregate initialisers) and random declarations (globals, structs with methods, cbuffers, enums, namespaces, functions with templates/attributes/semantics/registers/default arguments, declarators with arrays/pointers/references/[[attributes]], types with template arguments and every one of the 27 type modifiers the parser has syntax for); each printed with Target::Rssl, Hlsl and Msl (Msl skipped for trees holding an infinity or FLT_MAX, which that target spells as identifiers). (b) the trees the HLSL exporter built (verif hook) for every unit-test snippet and every tests/ corpus entry, for HlslForDirectX and HlslForVulkan in no-pipeline mode: parse(emitted text) must equal the recorded tree; a negative literal of an exporter tree is compared as unary minus of its magnitude (see assumptions). (c) every root definition the parser produces from the same corpora that contains no ambiguous node and no excluded node: print (Hlsl, Rssl), parse, compare. Excluded (stated by the property / no parser syntax): typedef, pipeline, static sampler, template defaults, packoffset; Metal address-space modifiers, function const/volatile qualifiers, braced-init expressions `T { }` and parenthesised declarators `(*a)[n]`/`(&a)[n]` (MSL exporter only - the RSSL parser has no syntax for any of them, and MSL text is not read back at all); literals without a spelling (negative values, -0.0, NaN); IfElse(If-without-else, ..) without a block, which neither the parser nor the exporters (they always emit blocks) can build; `& &x` reference-to-reference declarators and member access directly on an unsuffixed integer literal with a name not starting with x (`1.m` does not lex; only `1 .m` would); for-init declarations with template types or pointer declarators (the parser's documented tie rule reads those texts as expressions); more than 5 C casts per random expression (the parser tries 2^k readings; texts exceeding the logical step budget are counted as skipped, C08 owns that). Generator avoidances for open findings (each is still produced by an enumeration / sweep, which yields the finding's narrow signature): random streams never place an operator looser than + - directly under sizeof(..) or at the top of a template argument, and never use half literals >= 2^63. evaluations = format+parse executions observed (including those of witness minimisation); distinct_nontrivial = distinct original trees (content hash of the location-free tree + target) that were printed, re-read and compared equal";
+
+// ------------------------------------------------------------------------------------------------
+// Round trip primitive
+// ------------------------------------------------------------------------------------------------
+
+#[derive(Clone, Copy, PartialEq, Eq, Debug)]
+pub enum Ft {
+    Rssl,
+    Hlsl,
+    Msl,
+}
+
+impl Ft {
+    fn name(self) -> &'static str {
+        match self {
+            Ft::Rssl => "Rssl",
+            Ft::Hlsl => "Hlsl",
+            Ft::Msl => "Msl",
+        }
+    }
+    fn from_name(s: &str) -> Ft {
+        match s {
+            "Rssl" => Ft::Rssl,
+            "Msl" => Ft::Msl,
+            _ => Ft::Hlsl,
+        }
+    }
+    fn real(self) -> FTarget {
+        match self {
+            Ft::Rssl => FTarget::Rssl,
+            Ft::Hlsl => FTarget::Hlsl,
+            Ft::Msl => FTarget::Msl,
+        }
+    }
+}
+
+pub enum Rt {
+    Same { text: String, resolved: u32, orig: Sx },
+    /// The formatter refused (ambiguous node) - not an event of this property
+    FormatErr(String),
+    FormatPanic(Caught),
+    ParseDiag { text: String, diag: String },
+    ParsePanic { text: String, caught: Caught },
+    Diff { text: String, diff: cmp::Diff },
+}
+
+impl Rt {
+    fn class(&self) -> &'static str {
+        match self {
+            Rt::Same { .. } => "same",
+            Rt::FormatErr(_) => "format-error",
+            Rt::FormatPanic(_) => "format-panic",
+            Rt::ParseDiag { .. } => "reparse-error",
+            Rt::ParsePanic { .. } => "reparse-panic",
+            Rt::Diff { .. } => "tree-diff",
+        }
+    }
+    fn is_failure(&self) -> bool {
+        matches!(self, Rt::ParseDiag { .. } | Rt::Diff { .. })
+    }
+}
+
+/// Compare a tree with the tree read back from `text`
+/// Logical step budget for re-reading one printed text (normal cost is a few thousand steps per KB). Texts whose
+/// reading explodes (`(a)(b)(c)...` costs 2^n readings) are C08's business: counted, not judged here.
+const REPARSE_BUDGET: u64 = 100_000;
+
+fn compare_with_text(original: &ast::Module, text: String, exporter_tree: bool, report: &mut Report) -> Rt {
+    rssl::text::verif::reset(REPARSE_BUDGET + 40 * text.len() as u64);
+    let parsed = rs::parse_text(&text);
+    report.max("max:reparse_steps", rssl::text::verif::ticks());
+    rssl::text::verif::reset(u64::MAX);
+    match parsed {
+        Front::Ok(reread) => {
+            let mut c1 = Conv::new();
+            c1.negative_literal_as_minus = exporter_tree;
+            let a = c1.module(original);
+            if c1.negative_literals > 0 {
+                report.count_n("exporter:negative-literal-compared-as-unary-minus-of-magnitude", c1.negative_literals as u64);
+            }
+            let types = c1.types;
+            let mut c2 = Conv::resolving(&types);
+            let b = c2.module(&reread);
+            match cmp::first_diff(&a, &b) {
+                None => Rt::Same { text, resolved: c2.ambiguous, orig: a },
+                Some(diff) => Rt::Diff { text, diff },
+            }
+        }
+        Front::Diag(diag) => Rt::ParseDiag { text, diag },
+        Front::Panic(caught) => Rt::ParsePanic { text, caught },
+    }
+}
+
+/// format (real) -> text -> preprocess + parse (real) -> compare
+pub fn round_trip(module: &ast::Module, target: Ft) -> Rt {
+    let mut scratch = Report::new();
+    let printed = par::guard(|| rssl_formatter::format(module, target.real()));
+    let text = match printed {
+        Ok(Ok(t)) => t,
+        Ok(Err(e)) => return Rt::FormatErr(format!("{:?}", e)),
+        Err(c) => return Rt::FormatPanic(c),
+    };
+    compare_with_text(module, text, false, &mut scratch)
+}
+
+fn normalise_diag(diag: &str) -> String {
+    // first line that carries the reason, without file:line:col and digits
+    let line = diag.lines().find(|l| l.contains("error")).unwrap_or(diag.lines().next().unwrap_or(""));
+    let line = match line.find("error") {
+        Some(i) => &line[i..],
+        None => line,
+    };
+    let mut out = String::new();
+    let mut last_digit = false;
+    for c in line.chars().take(90) {
+        if c.is_ascii_digit() {
+            if !last_digit {
+                out.push('N');
+            }
+            last_digit = true;
+        } else {
+            last_digit = false;
+            out.push(c);
+        }
+    }
+    out
+}
+
+// ------------------------------------------------------------------------------------------------
+// Small builders
+// ------------------------------------------------------------------------------------------------
+
+fn st(kind: ast::StatementKind) -> ast::Statement {
+    ast::Statement {
+        kind,
+        location: SourceLocation::UNKNOWN,
+        attributes: Vec::new(),
+    }
+}
+
+fn lname(s: &str) -> Located<String> {
+    Located::none(s.to_string())
+}
+
+fn simple_type(name: &str) -> ast::Type {
+    ast::Type {
+        layout: ast::TypeLayout(ident(name), Default::default()),
+        modifiers: ast::TypeModifierSet::new(),
+        location: SourceLocation::UNKNOWN,
+    }
+}
+
+fn id(name: &str) -> ast::Expression {
+    ast::Expression::Identifier(ident(name))
+}
+
+fn int_lit(v: u64) -> ast::Expression {
+    ast::Expression::Literal(ast::Literal::IntUntyped(v))
+}
+
+fn function(name: &str, ret: ast::Type, params: Vec<ast::FunctionParam>, body: Option<Vec<ast::Statement>>) -> ast::FunctionDefinition {
+    ast::FunctionDefinition {
+        name: lname(name),
+        returntype: ast::FunctionReturn {
+            return_type: ret,
+            location_annotations: Vec::new(),
+        },
+        template_params: ast::TemplateParamList(Vec::new()),
+        params,
+        is_const: false,
+        is_volatile: false,
+        body,
+        attributes: Vec::new(),
+    }
+}
+
+fn module_of(defs: Vec<ast::RootDefinition>) -> ast::Module {
+    ast::Module { root_definitions: defs }
+}
+
+fn body_module(body: Vec<ast::Statement>) -> ast::Module {
+    module_of(vec![ast::RootDefinition::Function(function("f", simple_type("void"), Vec::new(), Some(body)))])
+}
+
+fn one_declarator(name: &str, init: Option<ast::Initializer>) -> ast::InitDeclarator {
+    ast::InitDeclarator {
+        declarator: ast::Declarator::Identifier(ident(name), Vec::new()),
+        location_annotations: Vec::new(),
+        init,
+    }
+}
+
+// ------------------------------------------------------------------------------------------------
+// Expression contexts
+// ------------------------------------------------------------------------------------------------
+
+pub const CONTEXTS: [&str; 17] = [
+    "return", "init", "exprstmt", "aggregate", "global", "if", "while", "dowhile", "switch", "for-init", "for-cond", "for-inc", "case", "arraysize", "attribute", "enumvalue",
+    "defaultparam",
+];
+pub const CTX_TEMPLATE_ARG: &str = "templatearg";
+
+/// Put an expression into a module at the named position
+pub fn wrap(e: &ast::Expression, context: &str) -> ast::Module {
+    let le = || loc(e.clone());
+    let block = || Box::new(st(ast::StatementKind::Block(Vec::new())));
+    match context {
+        "init" => body_module(vec![st(ast::StatementKind::Var(ast::VarDef {
+            local_type: simple_type("T0"),
+            defs: vec![one_declarator("v", Some(ast::Initializer::Expression(le())))],
+        }))]),
+        "exprstmt" => body_module(vec![st(ast::StatementKind::Expression(e.clone()))]),
+        "aggregate" => body_module(vec![st(ast::StatementKind::Var(ast::VarDef {
+            local_type: simple_type("T0"),
+            defs: vec![one_declarator(
+                "v",
+                Some(ast::Initializer::Aggregate(vec![
+                    ast::Initializer::Expression(le()),
+                    ast::Initializer::Aggregate(vec![ast::Initializer::Expression(le()), ast::Initializer::Expression(loc(int_lit(1)))]),
+                ])),
+            )],
+        }))]),
+        "global" => module_of(vec![ast::RootDefinition::GlobalVariable(ast::GlobalVariable {
+            global_type: ast::Type {
+                modifiers: ast::TypeModifierSet::from(&[Located::none(ast::TypeModifier::Static), Located::none(ast::TypeModifier::Const)]),
+                ..simple_type("int")
+            },
+            defs: vec![one_declarator("g", Some(ast::Initializer::Expression(le())))],
+            attributes: Vec::new(),
+        })]),
+        "if" => body_module(vec![st(ast::StatementKind::If(le(), block()))]),
+        "while" => body_module(vec![st(ast::StatementKind::While(le(), block()))]),
+        "dowhile" => body_module(vec![st(ast::StatementKind::DoWhile(block(), le()))]),
+        "switch" => body_module(vec![st(ast::StatementKind::Switch(le(), block()))]),
+        "for-init" => body_module(vec![st(ast::StatementKind::For(ast::InitStatement::Expression(le()), None, None, block()))]),
+        "for-cond" => body_module(vec![st(ast::StatementKind::For(ast::InitStatement::Empty, Some(le()), None, block()))]),
+        "for-inc" => body_module(vec![st(ast::StatementKind::For(ast::InitStatement::Empty, None, Some(le()), block()))]),
+        "case" => body_module(vec![st(ast::StatementKind::Switch(
+            loc(id("s")),
+            Box::new(st(ast::StatementKind::Block(vec![st(ast::StatementKind::CaseLabel(le(), Box::new(st(ast::StatementKind::Break))))]))),
+        ))]),
+        "arraysize" => body_module(vec![st(ast::StatementKind::Var(ast::VarDef {
+            local_type: simple_type("int"),
+            defs: vec![ast::InitDeclarator {
+                declarator: ast::Declarator::Array(ast::ArrayDeclarator {
+                    inner: Box::new(ast::Declarator::Identifier(ident("arr"), Vec::new())),
+                    array_size: Some(Box::new(le())),
+                    attributes: Vec::new(),
+                }),
+                location_annotations: Vec::new(),
+                init: None,
+            }],
+        }))]),
+        "attribute" => {
+            let mut s = st(ast::StatementKind::While(loc(id("c")), block()));
+            s.attributes.push(ast::Attribute {
+                name: vec![lname("unroll")],
+                arguments: vec![le(), loc(int_lit(2))],
+                two_square_brackets: false,
+            });
+            body_module(vec![s])
+        }
+        "enumvalue" => module_of(vec![ast::RootDefinition::Enum(ast::EnumDefinition {
+            name: lname("E0"),
+            values: vec![
+                ast::EnumValue {
+                    name: lname("A"),
+                    value: Some(le()),
+                },
+                ast::EnumValue { name: lname("B"), value: None },
+            ],
+        })]),
+        "defaultparam" => module_of(vec![ast::RootDefinition::Function(function(
+            "f",
+            simple_type("void"),
+            vec![ast::FunctionParam {
+                param_type: simple_type("int"),
+                declarator: ast::Declarator::Identifier(ident("p"), Vec::new()),
+                location_annotations: Vec::new(),
+                default_expr: Some(e.clone()),
+            }],
+            Some(Vec::new()),
+        ))]),
+        "templatearg" => body_module(vec![st(ast::StatementKind::Var(ast::VarDef {
+            local_type: ast::Type {
+                layout: ast::TypeLayout(ident("Tpl"), vec![ast::ExpressionOrType::Expression(le()), ast::ExpressionOrType::Type(ast::TypeId::from(simple_type("float")))].into_boxed_slice()),
+                modifiers: ast::TypeModifierSet::new(),
+                location: SourceLocation::UNKNOWN,
+            },
+            defs: vec![one_declarator("v", None)],
+        }))]),
+        _ => body_module(vec![st(ast::StatementKind::Return(Some(le())))]),
+    }
+}
+
+// ------------------------------------------------------------------------------------------------
+// Expression structure access (for minimisation)
+// ------------------------------------------------------------------------------------------------
+
+fn children(e: &ast::Expression) -> Vec<ast::Expression> {
+    use ast::Expression as E;
+    match e {
+        E::UnaryOperation(_, x) | E::Member(x, _) | E::Cast(_, x) => vec![x.node.clone()],
+        E::BinaryOperation(_, l, r) | E::ArraySubscript(l, r) => vec![l.node.clone(), r.node.clone()],
+        E::TernaryConditional(a, b, c) => vec![a.node.clone(), b.node.clone(), c.node.clone()],
+        E::Call(f, _, args) => {
+            let mut v = vec![f.node.clone()];
+            v.extend(args.iter().map(|a| a.node.clone()));
+            v
+        }
+        E::SizeOf(v) => match &**v {
+            ast::ExpressionOrType::Expression(x) => vec![x.node.clone()],
+            _ => Vec::new(),
+        },
+        _ => Vec::new(),
+    }
+}
+
+fn with_child(e: &ast::Expression, index: usize, new: ast::Expression) -> ast::Expression {
+    use ast::Expression as E;
+    let mut out = e.clone();
+    match &mut out {
+        E::UnaryOperation(_, x) | E::Member(x, _) | E::Cast(_, x) => x.node = new,
+        E::BinaryOperation(_, l, r) | E::ArraySubscript(l, r) => {
+            if index == 0 {
+                l.node = new
+            } else {
+                r.node = new
+            }
+        }
+        E::TernaryConditional(a, b, c) => match index {
+            0 => a.node = new,
+            1 => b.node = new,
+            _ => c.node = new,
+        },
+        E::Call(f, _, args) => {
+            if index == 0 {
+                f.node = new
+            } else {
+                args[index - 1].node = new
+            }
+        }
+        E::SizeOf(v) => {
+            if let ast::ExpressionOrType::Expression(x) = &mut **v {
+                x.node = new
+            }
+        }
+        _ => {}
+    }
+    out
+}
+
+fn is_leaf(e: &ast::Expression) -> bool {
+    matches!(e, ast::Expression::Identifier(_))
+}
+
+fn expr_size(e: &ast::Expression) -> usize {
+    1 + children(e).iter().map(expr_size).sum::<usize>()
+}
+
+/// Other simplifications of a node that keep its kind: drop template arguments / call arguments, plain cast type
+fn simplifications(e: &ast::Expression) -> Vec<ast::Expression> {
+    use ast::Expression as E;
+    let mut out = Vec::new();
+    match e {
+        E::Call(f, targs, args) => {
+            if !targs.is_empty() {
+                out.push(E::Call(f.clone(), Vec::new(), args.clone()));
+            }
+            for i in 0..args.len() {
+                let mut a = args.clone();
+                a.remove(i);
+                out.push(E::Call(f.clone(), targs.clone(), a));
+            }
+        }
+        E::Cast(t, x) => {
+            let plain = ast::TypeId::from(simple_type("T0"));
+            if **t != plain {
+                out.push(E::Cast(Box::new(plain), x.clone()));
+            }
+        }
+        E::Identifier(i) => {
+            if i.identifiers.len() > 1 || i.base == ast::ScopedIdentifierBase::Absolute {
+                out.push(id("x"));
+            }
+        }
+        E::Member(x, name) => {
+            if name.identifiers.len() > 1 {
+                out.push(E::Member(x.clone(), ident("m")));
+            }
+        }
+        _ => {}
+    }
+    out
+}
+
+/// Greedy minimisation of a failing expression in a fixed context and target; keeps the failure class
+pub fn minimise(e: &ast::Expression, context: &str, target: Ft, class: &str, evaluations: &mut u64) -> ast::Expression {
+    let mut fails = |c: &ast::Expression| -> bool {
+        *evaluations += 1;
+        let _ = class;
+        round_trip(&wrap(c, context), target).is_failure()
+    };
+    let mut cur = e.clone();
+    let mut budget = 400;
+    'outer: loop {
+        if budget == 0 {
+            break;
+        }
+        // 1. replace by a child
+        for c in children(&cur) {
+            budget -= 1;
+            if fails(&c) {
+                cur = c;
+                continue 'outer;
+            }
+        }
+        // 2. simplify somewhere inside (pre-order positions)
+        let mut paths = Vec::new();
+        collect_paths(&cur, &mut Vec::new(), &mut paths);
+        for p in paths {
+            if p.is_empty() {
+                for s in simplifications(&cur) {
+                    budget -= 1;
+                    if fails(&s) {
+                        cur = s;
+                        continue 'outer;
+                    }
+                }
+                continue;
+            }
+            let sub = get_path(&cur, &p);
+            let mut candidates: Vec<ast::Expression> = Vec::new();
+            if !is_leaf(&sub) {
+                candidates.push(id("x"));
+                candidates.extend(children(&sub));
+                // canonical stand-in for "an operand that is printed in parentheses"
+                if matches!(&sub, ast::Expression::BinaryOperation(..) | ast::Expression::TernaryConditional(..)) {
+                    candidates.push(ast::Expression::BinaryOperation(ast::BinOp::Sequence, bloc(id("x")), bloc(id("x"))));
+                }
+            }
+            candidates.extend(simplifications(&sub));
+            for c in candidates {
+                if expr_size(&c) > expr_size(&sub) || c == sub {
+                    continue;
+                }
+                let cand = set_path(&cur, &p, c);
+                budget -= 1;
+                if budget <= 0 {
+                    break 'outer;
+                }
+                if fails(&cand) {
+                    cur = cand;
+                    continue 'outer;
+                }
+            }
+        }
+        break;
+    }
+    cur
+}
+
+fn collect_paths(e: &ast::Expression, prefix: &mut Vec<usize>, out: &mut Vec<Vec<usize>>) {
+    out.push(prefix.clone());
+    for (i, c) in children(e).iter().enumerate() {
+        prefix.push(i);
+        collect_paths(c, prefix, out);
+        prefix.pop();
+    }
+}
+
+fn get_path(e: &ast::Expression, path: &[usize]) -> ast::Expression {
+    match path.split_first() {
+        None => e.clone(),
+        Some((i, rest)) => get_path(&children(e)[*i], rest),
+    }
+}
+
+fn set_path(e: &ast::Expression, path: &[usize], new: ast::Expression) -> ast::Expression {
+    match path.split_first() {
+        None => new,
+        Some((i, rest)) => {
+            let child = children(e)[*i].clone();
+            with_child(e, *i, set_path(&child, rest, new))
+        }
+    }
+}
+
+/// Skeleton of an expression with literal classes, used in signatures
+fn expr_skeleton(e: &ast::Expression) -> String {
+    use ast::Expression as E;
+    match e {
+        E::Literal(l) => {
+            let mut c = Conv::new();
+            format!("{}[{}]", c.literal(l).kind, cmp::literal_class(l))
+        }
+        E::Identifier(_) => "Id".to_string(),
+        E::SizeOf(v) if !matches!(**v, ast::ExpressionOrType::Expression(_)) => "SizeOf(type)".to_string(),
+        _ => {
+            let mut c = Conv::new();
+            let kind = c.expr(e).kind;
+            let kids: Vec<String> = children(e).iter().map(expr_skeleton).collect();
+            let extra = match e {
+                E::Call(_, targs, _) if !targs.is_empty() => "<>",
+                _ => "",
+            };
+            format!("{}{}({})", kind, extra, kids.join(","))
+        }
+    }
+}
+
+// ------------------------------------------------------------------------------------------------
+// Part 2: generators for source (a)
+// ------------------------------------------------------------------------------------------------
+
+const VARS: [&str; 13] = ["a", "b", "c", "x", "y", "i", "n", "idx", "foo", "bar_1", "ns::g", "::h", "A::B::c"];
+const MEMBERS: [&str; 6] = ["x", "xyz", "m", "field_1", "rgba", "w"];
+const TYPES: [&str; 13] = ["float", "int", "uint", "half", "double", "bool", "float3", "float4x4", "uint2", "T0", "S1", "ns::T2", "::G3"];
+const FUNCS: [&str; 8] = ["f", "g", "max", "dot", "ns::func", "float3", "int", "T0"];
+
+/// Constructs the random generators leave out because a recorded finding covers them (see RULE). Every one of
+/// them is still produced by an enumeration / sweep / directed family, which yields the finding's narrow signature.
+#[derive(Clone, Copy)]
+pub struct Avoid {
+    /// half literals >= 2^63 (printed without fraction)
+    pub huge_half: bool,
+    /// operands of sizeof(..) and template arguments whose top operator is looser than + and - (printed without parentheses)
+    pub loose_in_type_list: bool,
+}
+
+pub const AVOID_KNOWN: Avoid = Avoid {
+    huge_half: true,
+    loose_in_type_list: true,
+};
+
+/// Top operator looser than additive: shift, relational, equality, bitwise, logical, conditional, assignment, sequence
+fn is_loose(e: &ast::Expression) -> bool {
+    use ast::BinOp::*;
+    match e {
+        ast::Expression::BinaryOperation(op, _, _) => !matches!(op, Add | Subtract | Multiply | Divide | Modulus),
+        ast::Expression::TernaryConditional(..) => true,
+        _ => false,
+    }
+}
+
+fn count_casts(e: &ast::Expression) -> usize {
+    (if matches!(e, ast::Expression::Cast(..)) { 1 } else { 0 }) + children(e).iter().map(count_casts).sum::<usize>()
+}
+
+fn is_assignment(op: &ast::BinOp) -> bool {
+    use ast::BinOp::*;
+    matches!(
+        op,
+        Assignment | SumAssignment | DifferenceAssignment | ProductAssignment | QuotientAssignment | RemainderAssignment | LeftShiftAssignment | RightShiftAssignment | BitwiseAndAssignment | BitwiseOrAssignment | BitwiseXorAssignment
+    )
+}
+
+/// Interesting values per literal kind (all have a spelling: non-negative, not NaN, not -0.0)
+fn literal_pool(allow_inf: bool) -> Vec<ast::Literal> {
+    use ast::Literal as L;
+    let mut v = vec![L::Bool(true), L::Bool(false), L::String("abc".to_string()), L::String("a b, c;".to_string()), L::String(String::new())];
+    for x in [0u64, 1, 7, 8, 9, 10, 255, (1 << 31) - 1, 1 << 31, (1 << 32) - 1, 1 << 32, (1 << 63) - 1, 1 << 63, u64::MAX] {
+        v.push(L::IntUntyped(x));
+        v.push(L::IntUnsigned32(x));
+        v.push(L::IntUnsigned64(x));
+        if x <= i64::MAX as u64 {
+            v.push(L::IntSigned64(x as i64));
+        }
+    }
+    let f64s = [
+        0.0,
+        1.0,
+        2.0,
+        0.5,
+        0.1,
+        0.1 + 0.2,
+        1.0 / 3.0,
+        0.0031308,
+        0.055,
+        1e-7,
+        1e15,
+        1e16,
+        1e21,
+        1e22,
+        1e23,
+        9007199254740992.0,
+        9007199254740993.0,
+        9223372036854775807.0,
+        9223372036854775808.0,
+        18446744073709551615.0,
+        18446744073709551616.0,
+        1e300,
+        f64::MAX,
+        f64::MIN_POSITIVE,
+        5e-324,
+        2.2250738585072009e-308,
+        1.7976931348623157e308,
+        123456789.12345678,
+        0.12345678901234567,
+        f32::MAX as f64,
+        65504.0,
+        16777216.0,
+        16777217.0,
+        3.14159265358979323846,
+    ];
+    for x in f64s {
+        v.push(L::FloatUntyped(x));
+        v.push(L::Float64(x));
+    }
+    let f32s = [
+        0.0f32,
+        1.0,
+        2.0,
+        0.5,
+        0.1,
+        1.0 / 3.0,
+        0.0031308,
+        1e-7,
+        1e10,
+        16777216.0,
+        9.223372e18,
+        1.8446744e19,
+        f32::MAX,
+        f32::MIN_POSITIVE,
+        1e-45,
+        1.1754942e-38,
+        3.4028233e38,
+        123456.79,
+        65504.0,
+        6.1035156e-5,
+        5.9604645e-8,
+        0.33325195,
+        1.5,
+        0.000123,
+    ];
+    for x in f32s {
+        v.push(L::Float32(x));
+        v.push(L::Float16(x));
+    }
+    if allow_inf {
+        v.push(L::FloatUntyped(f64::INFINITY));
+        v.push(L::Float64(f64::INFINITY));
+        v.push(L::Float32(f32::INFINITY));
+        v.push(L::Float16(f32::INFINITY));
+    }
+    v
+}
+
+/// Literals the Msl target spells as identifiers (INFINITY, FLT_MAX): not readable as literals by design
+fn has_msl_only_spelling(sx: &Sx) -> bool {
+    let mut found = false;
+    sx.visit(&mut |n| {
+        if n.kind.starts_with("Lit:Float") && (n.val.contains("(inf)") || (n.kind == "Lit:Float32" && n.val.starts_with("bits:0x7f7fffff"))) {
+            found = true;
+        }
+    });
+    found
+}
+
+pub struct Gen<'r> {
+    pub rng: &'r mut Rng,
+    pub avoid: Option<Avoid>,
+    pub allow_inf: bool,
+}
+
+impl Gen<'_> {
+    fn var(&mut self) -> ast::Expression {
+        id(*self.rng.pick(&VARS))
+    }
+
+    pub fn literal(&mut self) -> ast::Literal {
+        use ast::Literal as L;
+        loop {
+            let l = if self.rng.chance(1, 2) {
+                let pool = literal_pool(self.allow_inf);
+                pool[self.rng.below(pool.len())].clone()
+            } else {
+                // random finite non-negative values of every kind
+                match self.rng.below(8) {
+                    0 => L::IntUntyped(self.rng.next_u64() >> self.rng.below(64)),
+                    1 => L::IntUnsigned32(self.rng.next_u32() as u64),
+                    2 => L::IntUnsigned64(self.rng.next_u64() >> self.rng.below(64)),
+                    3 => L::IntSigned64((self.rng.next_u64() >> (1 + self.rng.below(63))) as i64),
+                    4 => L::FloatUntyped(f64::from_bits(self.rng.next_u64() & 0x7fef_ffff_ffff_ffff)),
+                    5 => L::Float64(f64::from_bits(self.rng.next_u64() & 0x7fef_ffff_ffff_ffff)),
+                    6 => L::Float32(f32::from_bits(self.rng.next_u32() & 0x7f7f_ffff)),
+                    _ => {
+                        // a value representable in binary16: 11 significant bits, exponent -24..15
+                        let m = (self.rng.below(2048) + 1) as f32;
+                        let e = self.rng.range(-24, 5) as i32;
+                        L::Float16(m * (2.0f32).powi(e))
+                    }
+                }
+            };
+            let finite_ok = match &l {
+                L::FloatUntyped(v) | L::Float64(v) => !v.is_nan() && (self.allow_inf || v.is_finite()),
+                L::Float16(v) | L::Float32(v) => !v.is_nan() && (self.allow_inf || v.is_finite()),
+                _ => true,
+            };
+            if !finite_ok {
+                continue;
+            }
+            if self.avoid.map(|a| a.huge_half).unwrap_or(false) && matches!(&l, L::Float16(v) if *v >= 9.2e18) {
+                continue;
+            }
+            return l;
+        }
+    }
+
+    pub fn ty(&mut self, depth: u32) -> ast::Type {
+        let mut t = if depth > 0 && self.rng.chance(1, 4) {
+            let (name, args): (&str, Vec<ast::ExpressionOrType>) = match self.rng.below(6) {
+                0 => ("Texture2D", vec![self.targ_type(depth - 1)]),
+                1 => ("RWStructuredBuffer", vec![self.targ_type(depth - 1)]),
+                2 => ("vector", vec![self.targ_type(0), self.targ_expr()]),
+                3 => ("matrix", vec![self.targ_type(0), self.targ_expr(), self.targ_expr()]),
+                4 => ("ns::Tpl", vec![self.targ_expr(), self.targ_type(depth - 1)]),
+                _ => ("Tpl", vec![self.targ_type(depth - 1), self.targ_type(depth - 1), self.targ_expr()]),
+            };
+            ast::Type {
+                layout: ast::TypeLayout(ident(name), args.into_boxed_slice()),
+                modifiers: ast::TypeModifierSet::new(),
+                location: SourceLocation::UNKNOWN,
+            }
+        } else {
+            simple_type(*self.rng.pick(&TYPES))
+        };
+        if self.rng.chance(1, 3) {
+            for _ in 0..1 + self.rng.below(3) {
+                t.modifiers.modifiers.push(Located::none(*self.rng.pick(&PARSER_MODIFIERS)));
+            }
+        }
+        t
+    }
+
+    fn targ_type(&mut self, depth: u32) -> ast::ExpressionOrType {
+        let base = self.ty(depth);
+        ast::ExpressionOrType::Type(ast::TypeId {
+            base,
+            abstract_declarator: ast::Declarator::Empty,
+        })
+    }
+
+    /// Template argument expressions: literals, names and `>`-free arithmetic (general expressions are probed in the "templatearg" context)
+    fn targ_expr(&mut self) -> ast::ExpressionOrType {
+        let e = match self.rng.below(5) {
+            0 => id(*self.rng.pick(&["N", "K", "ns::N"])),
+            1 => ast::Expression::BinaryOperation(ast::BinOp::Add, bloc(id("N")), bloc(int_lit(1))),
+            2 => ast::Expression::Literal(ast::Literal::IntUnsigned32(self.rng.below(64) as u64)),
+            3 => ast::Expression::Literal(ast::Literal::Bool(self.rng.chance(1, 2))),
+            _ => int_lit(self.rng.below(9) as u64),
+        };
+        ast::ExpressionOrType::Expression(loc(e))
+    }
+
+    pub fn type_id(&mut self, depth: u32) -> ast::TypeId {
+        let base = self.ty(depth);
+        let abstract_declarator = match self.rng.below(10) {
+            0 => ast::Declarator::Array(ast::ArrayDeclarator {
+                inner: Box::new(ast::Declarator::Empty),
+                array_size: Some(bloc(int_lit(1 + self.rng.below(8) as u64))),
+                attributes: Vec::new(),
+            }),
+            1 => ast::Declarator::Array(ast::ArrayDeclarator {
+                inner: Box::new(ast::Declarator::Empty),
+                array_size: None,
+                attributes: Vec::new(),
+            }),
+            2 => ast::Declarator::Pointer(ast::PointerDeclarator {
+                attributes: Vec::new(),
+                qualifiers: ast::TypeModifierSet::new(),
+                inner: Box::new(ast::Declarator::Empty),
+            }),
+            _ => ast::Declarator::Empty,
+        };
+        ast::TypeId { base, abstract_declarator }
+    }
+
+    fn leaf(&mut self) -> ast::Expression {
+        if self.rng.chance(1, 2) {
+            self.var()
+        } else {
+            ast::Expression::Literal(self.literal())
+        }
+    }
+
+    /// Random expression over every node kind
+    pub fn expr(&mut self, depth: u32) -> ast::Expression {
+        use ast::Expression as E;
+        if depth == 0 || self.rng.chance(1, 8) {
+            return self.leaf();
+        }
+        let d = depth - 1;
+        let avoid = self.avoid;
+        match self.rng.below(20) {
+            0..=3 => {
+                let op = self.rng.pick(&UNARY_OPS).clone();
+                E::UnaryOperation(op, bloc(self.expr(d)))
+            }
+            4..=9 => {
+                let op = self.rng.pick(&BIN_OPS).clone();
+                E::BinaryOperation(op, bloc(self.expr(d)), bloc(self.expr(d)))
+            }
+            10 => {
+                let c = self.expr(d);
+                let a = self.expr(d);
+                let b = self.expr(d);
+                E::TernaryConditional(bloc(c), bloc(a), bloc(b))
+            }
+            11 => E::ArraySubscript(bloc(self.expr(d)), bloc(self.expr(d))),
+            12 | 13 => {
+                let object = self.expr(d);
+                // `1.m` does not lex (only `1.x...` is special cased by the lexer), see RULE
+                let name = if matches!(&object, E::Literal(ast::Literal::IntUntyped(_))) {
+                    *self.rng.pick(&["x", "xyz", "xx"])
+                } else if self.rng.chance(1, 12) {
+                    "Base::m"
+                } else {
+                    *self.rng.pick(&MEMBERS)
+                };
+                E::Member(bloc(object), ident(name))
+            }
+            14 | 15 => {
+                let callee = if self.rng.chance(3, 4) { id(*self.rng.pick(&FUNCS)) } else { self.expr(d) };
+                let targs = if self.rng.chance(1, 4) {
+                    (0..1 + self.rng.below(2)).map(|_| if self.rng.chance(1, 2) { self.targ_type(1) } else { self.targ_expr() }).collect()
+                } else {
+                    Vec::new()
+                };
+                let args = (0..self.rng.below(4)).map(|_| loc(self.expr(d))).collect();
+                E::Call(bloc(callee), targs, args)
+            }
+            16 | 17 => E::Cast(Box::new(self.type_id(1)), bloc(self.expr(d))),
+            18 => {
+                let mut operand = self.expr(d);
+                if avoid.map(|a| a.loose_in_type_list).unwrap_or(false) {
+                    while is_loose(&operand) {
+                        operand = self.expr(d);
+                    }
+                }
+                E::SizeOf(Box::new(ast::ExpressionOrType::Expression(loc(operand))))
+            }
+            _ => E::SizeOf(Box::new(ast::ExpressionOrType::Type(self.type_id(1)))),
+        }
+    }
+}
+
+// ---- exhaustive operator nestings ----------------------------------------------------------------
+
+#[derive(Clone, Debug, PartialEq)]
+pub enum Form {
+    Un(usize),
+    Bin(usize),
+    Ternary,
+    Subscript,
+    Member,
+    Call,
+    CallT,
+    Cast,
+    SizeOfE,
+}
+
+pub fn all_forms() -> Vec<Form> {
+    let mut v = Vec::new();
+    for i in 0..UNARY_OPS.len() {
+        v.push(Form::Un(i));
+    }
+    for i in 0..BIN_OPS.len() {
+        v.push(Form::Bin(i));
+    }
+    v.extend([Form::Ternary, Form::Subscript, Form::Member, Form::Call, Form::CallT, Form::Cast, Form::SizeOfE]);
+    v
+}
+
+impl Form {
+    fn slots(&self) -> &'static [&'static str] {
+        match self {
+            Form::Un(_) | Form::Member | Form::Cast | Form::SizeOfE => &["operand"],
+            Form::Bin(_) => &["left", "right"],
+            Form::Ternary => &["cond", "true", "false"],
+            Form::Subscript => &["object", "index"],
+            Form::Call | Form::CallT => &["callee", "arg"],
+        }
+    }
+    fn name(&self) -> String {
+        match self {
+            Form::Un(i) => format!("{:?}", UNARY_OPS[*i]),
+            Form::Bin(i) => format!("{:?}", BIN_OPS[*i]),
+            other => format!("{:?}", other),
+        }
+    }
+    /// A chain form has one operand on its spine (unary, postfix, cast)
+    fn is_chain(&self) -> bool {
+        !matches!(self, Form::Bin(_) | Form::Ternary)
+    }
+    /// Build the node with `inner` in slot `slot` and distinct leaves (named after `level`) elsewhere
+    fn build(&self, slot: usize, inner: Option<ast::Expression>, level: usize) -> ast::Expression {
+        use ast::Expression as E;
+        let names = [["a", "b", "c"], ["p", "q", "r"], ["u", "v", "w"]][level % 3];
+        let mut inner = inner;
+        let mut arg = |i: usize| -> Box<Located<ast::Expression>> {
+            if i == slot {
+                if let Some(e) = inner.take() {
+                    return bloc(e);
+                }
+            }
+            bloc(id(names[i]))
+        };
+        match self {
+            Form::Un(i) => E::UnaryOperation(UNARY_OPS[*i].clone(), arg(0)),
+            Form::Bin(i) => {
+                let l = arg(0);
+                let r = arg(1);
+                E::BinaryOperation(BIN_OPS[*i].clone(), l, r)
+            }
+            Form::Ternary => {
+                let c = arg(0);
+                let a = arg(1);
+                let b = arg(2);
+                E::TernaryConditional(c, a, b)
+            }
+            Form::Subscript => {
+                let o = arg(0);
+                let i = arg(1);
+                E::ArraySubscript(o, i)
+            }
+            Form::Member => E::Member(arg(0), ident("m")),
+            Form::Call => {
+                let f = arg(0);
+                let a = arg(1);
+                E::Call(f, Vec::new(), vec![*a, loc(id("z"))])
+            }
+            Form::CallT => {
+                let f = arg(0);
+                let a = arg(1);
+                E::Call(f, vec![ast::ExpressionOrType::Type(ast::TypeId::from(simple_type("float"))), ast::ExpressionOrType::Expression(loc(int_lit(3)))], vec![*a])
+            }
+            Form::Cast => E::Cast(Box::new(ast::TypeId::from(simple_type("T0"))), arg(0)),
+            Form::SizeOfE => E::SizeOf(Box::new(ast::ExpressionOrType::Expression(*arg(0)))),
+        }
+    }
+}
+
+/// (form, slot) pairs
+pub fn all_slots() -> Vec<(Form, usize)> {
+    let mut v = Vec::new();
+    for f in all_forms() {
+        for s in 0..f.slots().len() {
+            v.push((f.clone(), s));
+        }
+    }
+    v
+}
+
+/// Depth 2: outer slot x inner form
+pub fn nest2(index: usize) -> Option<(ast::Expression, String)> {
+    let slots = all_slots();
+    let forms = all_forms();
+    if index >= slots.len() * forms.len() {
+        return None;
+    }
+    let (outer, slot) = &slots[index / forms.len()];
+    let inner = &forms[index % forms.len()];
+    let e = outer.build(*slot, Some(inner.build(usize::MAX, None, 1)), 0);
+    Some((e, format!("{}.{}<-{}", outer.name(), outer.slots()[*slot], inner.name())))
+}
+
+/// Depth 3: outer slot x middle slot x inner form
+pub fn nest3_count() -> usize {
+    let s = all_slots().len();
+    s * s * all_forms().len()
+}
+
+pub fn nest3(index: usize, slots: &[(Form, usize)], forms: &[Form]) -> (ast::Expression, String) {
+    let inner = &forms[index % forms.len()];
+    let rest = index / forms.len();
+    let (mid, mslot) = &slots[rest % slots.len()];
+    let (outer, oslot) = &slots[(rest / slots.len()) % slots.len()];
+    let e = outer.build(*oslot, Some(mid.build(*mslot, Some(inner.build(usize::MAX, None, 2)), 1)), 0);
+    (e, format!("{}.{}<-{}.{}<-{}", outer.name(), outer.slots()[*oslot], mid.name(), mid.slots()[*mslot], inner.name()))
+}
+
+/// Chains of depth 3 over the forms with a single spine operand
+pub fn chain_forms() -> Vec<Form> {
+    all_forms().into_iter().filter(|f| f.is_chain()).collect()
+}
+
+pub fn chain3(index: usize) -> Option<(ast::Expression, String)> {
+    let forms = chain_forms();
+    let n = forms.len();
+    if index >= n * n * n {
+        return None;
+    }
+    let (a, b, c) = (&forms[index / (n * n)], &forms[(index / n) % n], &forms[index % n]);
+    let e = a.build(0, Some(b.build(0, Some(c.build(0, None, 2)), 1)), 0);
+    Some((e, format!("{}<-{}<-{}", a.name(), b.name(), c.name())))
+}
+
+// ---- statements and declarations -----------------------------------------------------------------
+
+const SEMANTICS: [ast::Semantic; 12] = [
+    ast::Semantic::DispatchThreadId,
+    ast::Semantic::GroupId,
+    ast::Semantic::GroupIndex,
+    ast::Semantic::GroupThreadId,
+    ast::Semantic::VertexId,
+    ast::Semantic::InstanceId,
+    ast::Semantic::PrimitiveId,
+    ast::Semantic::Position,
+    ast::Semantic::Target(3),
+    ast::Semantic::Depth,
+    ast::Semantic::DepthGreaterEqual,
+    ast::Semantic::DepthLessEqual,
+];
+
+/// An else-less `if` at the end of a statement would capture a following `else`: such a tree cannot come from the
+/// parser and the exporters always emit blocks, so the generator wraps these in a block (see RULE)
+fn ends_with_open_if(s: &ast::Statement) -> bool {
+    use ast::StatementKind as K;
+    match &s.kind {
+        K::If(..) => true,
+        K::IfElse(_, _, e) => ends_with_open_if(e),
+        K::For(_, _, _, b) | K::While(_, b) | K::Switch(_, b) => ends_with_open_if(b),
+        K::CaseLabel(_, n) | K::DefaultLabel(n) => ends_with_open_if(n),
+        _ => false,
+    }
+}
+
+impl Gen<'_> {
+    fn small_expr(&mut self) -> ast::Expression {
+        let d = self.rng.below(3) as u32;
+        self.expr(d)
+    }
+
+    /// Expression for a position where a top level comma would be a separator (the printer gets these through the
+    /// "init"/"arraysize"/... contexts of the expression streams; here they stay comma free)
+    fn noseq_expr(&mut self) -> ast::Expression {
+        loop {
+            let e = self.small_expr();
+            if !matches!(&e, ast::Expression::BinaryOperation(ast::BinOp::Sequence, _, _)) {
+                return e;
+            }
+        }
+    }
+
+    fn attribute(&mut self, double_only: bool) -> ast::Attribute {
+        let two = double_only || self.rng.chance(1, 3);
+        let (name, nargs): (Vec<&str>, usize) = match self.rng.below(7) {
+            0 => (vec!["unroll"], 0),
+            1 => (vec!["unroll"], 1),
+            2 => (vec!["loop"], 0),
+            3 => (vec!["branch"], 0),
+            4 => (vec!["vk", "binding"], 2),
+            5 => (vec!["numthreads"], 3),
+            _ => (vec!["ns", "inner", "attr"], 1),
+        };
+        ast::Attribute {
+            name: name.into_iter().map(lname).collect(),
+            arguments: (0..nargs).map(|_| loc(self.noseq_expr())).collect(),
+            two_square_brackets: two,
+        }
+    }
+
+    fn attributes(&mut self, double_only: bool, one_in: u32) -> Vec<ast::Attribute> {
+        if self.rng.chance(1, one_in) {
+            (0..1 + self.rng.below(2)).map(|_| self.attribute(double_only)).collect()
+        } else {
+            Vec::new()
+        }
+    }
+
+    fn annotations(&mut self, one_in: u32) -> Vec<ast::LocationAnnotation> {
+        if !self.rng.chance(1, one_in) {
+            return Vec::new();
+        }
+        let a = match self.rng.below(4) {
+            0 => ast::LocationAnnotation::Semantic(self.rng.pick(&SEMANTICS).clone()),
+            1 => ast::LocationAnnotation::Semantic(ast::Semantic::User(self.rng.pick(&["TEXCOORD0", "COLOR", "my_semantic"]).to_string())),
+            _ => {
+                let slot = if self.rng.chance(3, 4) {
+                    Some(ast::RegisterSlot {
+                        slot_type: *self.rng.pick(&[ast::RegisterType::T, ast::RegisterType::U, ast::RegisterType::S, ast::RegisterType::B]),
+                        index: *self.rng.pick(&[0u32, 1, 7, 128, u32::MAX]),
+                    })
+                } else {
+                    None
+                };
+                let space = if slot.is_none() || self.rng.chance(1, 2) { Some(*self.rng.pick(&[0u32, 1, 5, u32::MAX])) } else { None };
+                ast::LocationAnnotation::Register(ast::Register { slot, space })
+            }
+        };
+        vec![a]
+    }
+
+    /// Declarator the parser has syntax for: `*`/`&` prefixes outermost, then the name, then array dimensions
+    fn declarator(&mut self, name: &str) -> ast::Declarator {
+        let mut d = ast::Declarator::Identifier(ident(name), self.attributes(true, 10));
+        for _ in 0..[0usize, 0, 0, 1, 1, 2][self.rng.below(6)] {
+            let array_size = if self.rng.chance(1, 6) { None } else { Some(bloc(self.noseq_expr())) };
+            d = ast::Declarator::Array(ast::ArrayDeclarator {
+                inner: Box::new(d),
+                array_size,
+                attributes: self.attributes(true, 12),
+            });
+        }
+        for _ in 0..[0usize, 0, 0, 0, 0, 1, 1, 2][self.rng.below(8)] {
+            if self.rng.chance(1, 2) || matches!(d, ast::Declarator::Reference(_)) {
+                let mut qualifiers = ast::TypeModifierSet::new();
+                for _ in 0..self.rng.below(3) {
+                    qualifiers.modifiers.push(Located::none(*self.rng.pick(&[ast::TypeModifier::Const, ast::TypeModifier::Volatile])));
+                }
+                d = ast::Declarator::Pointer(ast::PointerDeclarator {
+                    attributes: self.attributes(false, 10),
+                    qualifiers,
+                    inner: Box::new(d),
+                });
+            } else {
+                d = ast::Declarator::Reference(ast::ReferenceDeclarator {
+                    attributes: self.attributes(false, 10),
+                    inner: Box::new(d),
+                });
+            }
+        }
+        d
+    }
+
+    fn initializer(&mut self, depth: u32) -> ast::Initializer {
+        if depth > 0 && self.rng.chance(1, 4) {
+            let n = 1 + self.rng.below(3);
+            ast::Initializer::Aggregate((0..n).map(|_| self.initializer(depth - 1)).collect())
+        } else {
+            ast::Initializer::Expression(loc(self.noseq_expr()))
+        }
+    }
+
+    fn init_declarators(&mut self, annotations_one_in: u32) -> Vec<ast::InitDeclarator> {
+        let n = [1usize, 1, 1, 2, 3][self.rng.below(5)];
+        (0..n)
+            .map(|i| {
+                let name = ["v", "w1", "_u", "data", "k9"][(i + self.rng.below(5)) % 5];
+                ast::InitDeclarator {
+                    declarator: self.declarator(name),
+                    location_annotations: self.annotations(annotations_one_in),
+                    init: if self.rng.chance(1, 2) { Some(self.initializer(2)) } else { None },
+                }
+            })
+            .collect()
+    }
+
+    fn vardef(&mut self) -> ast::VarDef {
+        ast::VarDef {
+            local_type: self.ty(2),
+            defs: self.init_declarators(12),
+        }
+    }
+
+    pub fn statement(&mut self, depth: u32) -> ast::Statement {
+        use ast::StatementKind as K;
+        let d = depth.saturating_sub(1);
+        let pick = if depth == 0 { self.rng.below(8) } else { self.rng.below(20) };
+        let kind = match pick {
+            0 => K::Empty,
+            1 | 2 => K::Expression(self.small_expr()),
+            3 | 4 => K::Var(self.vardef()),
+            5 => self.rng.pick(&[K::Break, K::Continue, K::Discard]).clone(),
+            6 => K::Return(None),
+            7 => K::Return(Some(loc(self.small_expr()))),
+            8 | 9 => K::Block((0..self.rng.below(4)).map(|_| self.statement(d)).collect()),
+            10 => K::If(loc(self.small_expr()), Box::new(self.statement(d))),
+            11 | 12 => {
+                let mut then = self.statement(d);
+                if ends_with_open_if(&then) {
+                    then = st(K::Block(vec![then]));
+                }
+                K::IfElse(loc(self.small_expr()), Box::new(then), Box::new(self.statement(d)))
+            }
+            13 | 14 => {
+                let init = match self.rng.below(3) {
+                    0 => ast::InitStatement::Empty,
+                    1 => ast::InitStatement::Expression(loc(self.small_expr())),
+                    _ => ast::InitStatement::Declaration(self.for_vardef()),
+                };
+                let cond = if self.rng.chance(3, 4) { Some(loc(self.small_expr())) } else { None };
+                let inc = if self.rng.chance(3, 4) { Some(loc(self.small_expr())) } else { None };
+                K::For(init, cond, inc, Box::new(self.statement(d)))
+            }
+            15 => K::While(loc(self.small_expr()), Box::new(self.statement(d))),
+            16 => K::DoWhile(Box::new(self.statement(d)), loc(self.small_expr())),
+            17 | 18 => {
+                // switch with label chains
+                let mut items = Vec::new();
+                for _ in 0..1 + self.rng.below(3) {
+                    let mut s = self.statement(d);
+                    for _ in 0..1 + self.rng.below(2) {
+                        s = if self.rng.chance(1, 4) { st(K::DefaultLabel(Box::new(s))) } else { st(K::CaseLabel(loc(self.small_expr()), Box::new(s))) };
+                    }
+                    items.push(s);
+                    if self.rng.chance(1, 2) {
+                        items.push(st(K::Break));
+                    }
+                }
+                let body = if self.rng.chance(5, 6) { st(K::Block(items)) } else { items.remove(0) };
+                K::Switch(loc(self.small_expr()), Box::new(body))
+            }
+            _ => K::CaseLabel(loc(self.small_expr()), Box::new(self.statement(d))),
+        };
+        ast::Statement {
+            kind,
+            location: SourceLocation::UNKNOWN,
+            attributes: self.attributes(false, 8),
+        }
+    }
+
+    /// Declaration in a for-init: plain (non template) type name and no pointer/reference declarator - for those texts
+    /// the parser's for-init prefers the expression reading on a tie, which is its documented "longest parse, first
+    /// alternative wins" rule and not a property of the printer
+    fn for_vardef(&mut self) -> ast::VarDef {
+        let mut t = simple_type(*self.rng.pick(&TYPES));
+        if self.rng.chance(1, 4) {
+            t.modifiers.modifiers.push(Located::none(ast::TypeModifier::Const));
+        }
+        let n = 1 + self.rng.below(2);
+        ast::VarDef {
+            local_type: t,
+            defs: (0..n).map(|i| one_declarator(["i", "j"][i], Some(ast::Initializer::Expression(loc(self.noseq_expr()))))).collect(),
+        }
+    }
+
+    fn template_params(&mut self) -> ast::TemplateParamList {
+        if !self.rng.chance(1, 4) {
+            return ast::TemplateParamList(Vec::new());
+        }
+        let n = 1 + self.rng.below(3);
+        ast::TemplateParamList(
+            (0..n)
+                .map(|i| {
+                    let name = if self.rng.chance(5, 6) { Some(lname(["TA", "TB", "TC"][i])) } else { None };
+                    if self.rng.chance(1, 2) {
+                        ast::TemplateParam::Type(ast::TemplateTypeParam { name, default: None })
+                    } else {
+                        ast::TemplateParam::Value(ast::TemplateValueParam {
+                            value_type: simple_type(*self.rng.pick(&["uint", "int", "bool"])),
+                            name,
+                            default: None,
+                        })
+                    }
+                })
+                .collect(),
+        )
+    }
+
+    fn function_def(&mut self, name: &str, body_depth: u32) -> ast::FunctionDefinition {
+        let nparams = self.rng.below(4);
+        let params = (0..nparams)
+            .map(|i| ast::FunctionParam {
+                param_type: self.ty(2),
+                declarator: self.declarator(["p0", "p1", "p2"][i]),
+                location_annotations: self.annotations(5),
+                default_expr: if self.rng.chance(1, 6) { Some(self.noseq_expr()) } else { None },
+            })
+            .collect();
+        let template_params = self.template_params();
+        ast::FunctionDefinition {
+            name: lname(name),
+            returntype: ast::FunctionReturn {
+                return_type: self.ty(2),
+                location_annotations: self.annotations(6),
+            },
+            // the parser reads `template<..>` before attributes and the printer writes attributes first: the
+            // combination is probed by its own directed case, not mixed into every random function
+            attributes: if template_params.0.is_empty() { self.attributes(false, 4) } else { Vec::new() },
+            template_params,
+            params,
+            is_const: false,
+            is_volatile: false,
+            body: if self.rng.chance(1, 8) { None } else { Some((0..self.rng.below(4)).map(|_| self.statement(body_depth)).collect()) },
+        }
+    }
+
+    pub fn root_definition(&mut self, depth: u32) -> ast::RootDefinition {
+        match self.rng.below(if depth == 0 { 8 } else { 9 }) {
+            0 | 1 => ast::RootDefinition::GlobalVariable(ast::GlobalVariable {
+                global_type: self.ty(2),
+                defs: self.init_declarators(3),
+                attributes: self.attributes(false, 5),
+            }),
+            2 => {
+                let n = self.rng.below(4);
+                let mut members = Vec::new();
+                for i in 0..n {
+                    if self.rng.chance(1, 4) {
+                        members.push(ast::StructEntry::Method(self.function_def(["method", "get", "set_1", "op"][i], 1)));
+                    } else {
+                        members.push(ast::StructEntry::Variable(ast::StructMember {
+                            ty: self.ty(2),
+                            defs: self.init_declarators(4),
+                            attributes: self.attributes(false, 6),
+                        }));
+                    }
+                }
+                ast::RootDefinition::Struct(ast::StructDefinition {
+                    name: lname(*self.rng.pick(&["S1", "T0", "Data"])),
+                    base_types: Vec::new(),
+                    template_params: self.template_params(),
+                    members,
+                })
+            }
+            3 => {
+                let n = self.rng.below(4);
+                ast::RootDefinition::Enum(ast::EnumDefinition {
+                    name: lname("E0"),
+                    values: (0..n)
+                        .map(|i| ast::EnumValue {
+                            name: lname(["A", "B", "C"][i]),
+                            value: if self.rng.chance(1, 2) { Some(loc(self.noseq_expr())) } else { None },
+                        })
+                        .collect(),
+                })
+            }
+            4 => {
+                let n = self.rng.below(4);
+                ast::RootDefinition::ConstantBuffer(ast::ConstantBuffer {
+                    name: lname("CB0"),
+                    location_annotations: self.annotations(2),
+                    members: (0..n)
+                        .map(|_| ast::ConstantVariable {
+                            ty: self.ty(2),
+                            defs: self.init_declarators(8),
+                        })
+                        .collect(),
+                    attributes: self.attributes(false, 5),
+                })
+            }
+            5..=7 => ast::RootDefinition::Function({ let name = *self.rng.pick(&["f", "main", "CSMain", "helper_2"]); self.function_def(name, 2) }),
+            _ => {
+                let n = self.rng.below(3);
+                ast::RootDefinition::Namespace(lname(*self.rng.pick(&["ns", "detail", ""])), (0..n).map(|_| self.root_definition(depth - 1)).collect())
+            }
+        }
+    }
+}
+
+// ------------------------------------------------------------------------------------------------
+// Verdicts
+// ------------------------------------------------------------------------------------------------
+
+pub struct Meta<'a> {
+    pub stream: &'a str,
+    pub seed: u64,
+    pub index: u64,
+    pub desc: String,
+}
+
+impl Meta<'_> {
+    fn json(&self) -> Json {
+        Json::obj().set("source", "generated").set("stream", self.stream).set("seed", Json::str(self.seed.to_string())).set("index", self.index).set("shape", self.desc.as_str())
+    }
+}
+
+fn sx_hash(sx: &Sx, target: Ft) -> u64 {
+    hash_str(&sx.to_text(usize::MAX)) ^ (target as u64).wrapping_mul(0x9E37_79B9_7F4A_7C15)
+}
+
+fn observe_same(orig: &Sx, resolved: u32, target: Ft, histogram: bool, report: &mut Report) {
+    report.distinct(sx_hash(orig, target));
+    report.count("roundtrip:same");
+    if resolved > 0 {
+        report.count("roundtrip:same-after-resolving-ambiguous-reading");
+    }
+    if histogram {
+        orig.visit(&mut |n| {
+            if !n.kind.contains('[') || n.kind.starts_with("Attribute") {
+                report.count(&format!("node:{}", n.kind));
+            }
+        });
+        report.max("max:tree_depth", orig.depth() as u64);
+        report.max("max:tree_nodes", orig.node_count() as u64);
+    }
+}
+
+const TEMPLATE_CALL_FAMILY: &str = "LessThan..GreaterThan(parenthesised operand) read as template call";
+
+/// `x < y > (z)`: a `<` ... `> (` sequence on one line, which the parser prefers to read as the template call `x<y>(z)`
+fn looks_like_template_call(printed: &str) -> bool {
+    printed.lines().any(|l| match l.find("> (") {
+        Some(i) => l[..i].contains(" < "),
+        None => false,
+    })
+}
+
+fn parse_panic_key(c: &Caught) -> String {
+    match c.budget_site {
+        Some(site) => format!("skipped:reparse-step-budget-exceeded(C08):site{}", site),
+        None => format!("skipped:reparse-panic(C08):{}", c.signature()),
+    }
+}
+
+fn failure_json(rt: &Rt) -> Json {
+    match rt {
+        Rt::ParseDiag { text, diag } => Json::obj().set("class", "reparse-error").set("printed", text.as_str()).set("diagnostic", diag.as_str()),
+        Rt::Diff { text, diff } => Json::obj()
+            .set("class", "tree-diff")
+            .set("printed", text.as_str())
+            .set("first_difference_path", diff.path.as_str())
+            .set("original_node", diff.left.as_str())
+            .set("reread_node", diff.right.as_str()),
+        Rt::FormatPanic(c) => Json::obj().set("class", "format-panic").set("location", c.location.as_str()).set("message", c.message.as_str()),
+        _ => Json::obj().set("class", rt.class()),
+    }
+}
+
+/// One expression in one context, printed for every target
+pub fn check_expr(e: &ast::Expression, context: &str, meta: &Meta, histogram: bool, report: &mut Report) {
+    let mut probe = Conv::new();
+    let esx = probe.expr(e);
+    for target in [Ft::Hlsl, Ft::Rssl, Ft::Msl] {
+        if target == Ft::Msl && has_msl_only_spelling(&esx) {
+            report.count("skipped:msl-target-spells-literal-as-identifier");
+            continue;
+        }
+        let module = wrap(e, context);
+        let rt = round_trip(&module, target);
+        report.evaluations += 1;
+        report.count(&format!("context:{}", context));
+        match &rt {
+            Rt::Same { orig, resolved, text } => {
+                observe_same(orig, *resolved, target, histogram && target == Ft::Hlsl, report);
+                if report.want_sample() && meta.index % 997 == 3 {
+                    report.sample(meta.json().set("target", target.name()).set("context", context).set("original_tree", esx.to_text(200)).set("printed", text.as_str()).set("verdict", "same tree"));
+                }
+            }
+            Rt::FormatErr(err) => report.count(&format!("skipped:format-error:{}", err)),
+            Rt::ParsePanic { caught, .. } => report.count(&parse_panic_key(caught)),
+            Rt::FormatPanic(c) => {
+                let sig = format!("format-panic:{}", c.signature());
+                let mut lossy = false;
+                report.violation(
+                    &sig,
+                    &format!("formatter panicked on a tree inside the property: {} at {}", c.message, c.location),
+                    meta.json().set("target", target.name()).set("context", context).set("expr", cmp::expr_to_json(e, &mut lossy)).set("failure", failure_json(&rt)),
+                );
+            }
+            Rt::ParseDiag { .. } | Rt::Diff { .. } => {
+                let class = rt.class();
+                let minimal = minimise(e, context, target, class, &mut report.evaluations);
+                let mrt = round_trip(&wrap(&minimal, context), target);
+                // the context is part of the signature only when the expression reads back fine in a plain `return`
+                let ctx_tag = if context == "return" {
+                    String::new()
+                } else {
+                    report.evaluations += 1;
+                    if round_trip(&wrap(&minimal, "return"), target).is_failure() {
+                        String::new()
+                    } else {
+                        format!("@{}", context)
+                    }
+                };
+                let mut skeleton = expr_skeleton(&minimal);
+                if skeleton.len() > 120 {
+                    skeleton.truncate(120);
+                }
+                // `x < y > (z)`: the parser prefers the template call reading `x<y>(z)`; one signature for the family
+                let mprinted = match &mrt {
+                    Rt::ParseDiag { text, .. } | Rt::Diff { text, .. } => text.as_str(),
+                    _ => "",
+                };
+                if skeleton.contains("Bin:LessThan") && skeleton.contains("Bin:GreaterThan") && looks_like_template_call(mprinted) {
+                    skeleton = TEMPLATE_CALL_FAMILY.to_string();
+                }
+                let sig = format!("mismatch:expr:{}{}", skeleton, ctx_tag);
+                let mut lossy = false;
+                let ej = cmp::expr_to_json(e, &mut lossy);
+                let mut mlossy = false;
+                let mj = cmp::expr_to_json(&minimal, &mut mlossy);
+                let mut c = Conv::new();
+                let msx = c.expr(&minimal);
+                let printed = match &mrt {
+                    Rt::ParseDiag { text, .. } | Rt::Diff { text, .. } | Rt::Same { text, .. } => text.clone(),
+                    _ => String::new(),
+                };
+                let summary = format!(
+                    "{} [{}]: tree {} printed as `{}` {}",
+                    class,
+                    target.name(),
+                    msx.to_text(30),
+                    printed.lines().map(|l| l.trim()).filter(|l| !l.is_empty() && *l != "void f() {" && *l != "}").collect::<Vec<_>>().join(" "),
+                    match &mrt {
+                        Rt::Diff { diff, .. } => format!("reads back with {} where the original has {}", diff.right, diff.left),
+                        Rt::ParseDiag { diag, .. } => format!("does not parse: {}", normalise_diag(diag)),
+                        _ => String::new(),
+                    }
+                );
+                let mut w = meta.json().set("target", target.name()).set("context", context).set("failure", failure_json(&rt)).set("minimal_failure", failure_json(&mrt)).set("minimal_tree", msx.to_text(200));
+                if !lossy {
+                    w.put("expr", ej);
+                }
+                if !mlossy {
+                    w.put("minimal", mj);
+                }
+                report.violation(&sig, &summary, w);
+            }
+        }
+    }
+}
+
+/// A whole module (statements / declarations / corpus trees): no minimisation, the signature names the first differing node
+pub fn check_module(module: &ast::Module, targets: &[Ft], origin: &str, witness: &Json, histogram: bool, report: &mut Report) {
+    for &target in targets {
+        if target == Ft::Msl {
+            let mut c = Conv::new();
+            if has_msl_only_spelling(&c.module(module)) {
+                report.count("skipped:msl-target-spells-literal-as-identifier");
+                continue;
+            }
+        }
+        let rt = round_trip(module, target);
+        report.evaluations += 1;
+        verdict_module(&rt, target, origin, witness, histogram && target == targets[0], report);
+    }
+}
+
+fn strip_count(kind: &str) -> String {
+    // "bases[2]" -> "bases[n]"
+    match kind.find('[') {
+        Some(i) if kind.ends_with(']') && kind[i + 1..kind.len() - 1].chars().all(|c| c.is_ascii_digit()) && i + 2 < kind.len() => format!("{}[n]", &kind[..i]),
+        _ => kind.to_string(),
+    }
+}
+
+fn last_segment(path: &str) -> String {
+    // "Kind:field#i" of the parent, without the index
+    let seg = path.rsplit('/').next().unwrap_or("");
+    let seg = seg.split('#').next().unwrap_or("");
+    match seg.rsplit_once(':') {
+        Some((kind, field)) => format!("{}:{}", strip_count(kind), field),
+        None => seg.to_string(),
+    }
+}
+
+pub fn verdict_module(rt: &Rt, target: Ft, origin: &str, witness: &Json, histogram: bool, report: &mut Report) {
+    match rt {
+        Rt::Same { orig, resolved, text } => {
+            observe_same(orig, *resolved, target, histogram, report);
+            if report.want_sample() && (text.len() % 13 == 5) {
+                let mut t = text.clone();
+                t.truncate(1500);
+                report.sample(witness.clone().set("target", target.name()).set("original_tree", orig.to_text(150)).set("printed", t).set("verdict", "same tree"));
+            }
+        }
+        Rt::FormatErr(err) => report.count(&format!("skipped:format-error:{}", err)),
+        Rt::ParsePanic { caught, .. } => report.count(&parse_panic_key(caught)),
+        Rt::FormatPanic(c) => {
+            report.violation(
+                &format!("format-panic:{}:{}", origin, c.signature()),
+                &format!("formatter panicked on a tree inside the property: {} at {}", c.message, c.location),
+                witness.clone().set("target", target.name()).set("failure", failure_json(rt)),
+            );
+        }
+        Rt::ParseDiag { text, diag } => {
+            let line = failing_line(text, diag);
+            let reason = if looks_like_template_call(&line) { TEMPLATE_CALL_FAMILY.to_string() } else { normalise_diag(diag) };
+            report.violation(
+                &(if reason == TEMPLATE_CALL_FAMILY { format!("mismatch:expr:{}", TEMPLATE_CALL_FAMILY) } else { format!("reparse-error:{}:{}", origin, reason) }),
+                &format!("[{}] printed text does not parse: {} | near `{}`", target.name(), normalise_diag(diag), line.chars().take(160).collect::<String>()),
+                witness.clone().set("target", target.name()).set("failure", failure_json(rt)),
+            );
+        }
+        Rt::Diff { diff, .. } => {
+            let family = diff.right.contains("Call") && diff.left.contains("Bin:LessThan") && diff.left.contains("Bin:GreaterThan") && diff.left_kind != "Call";
+            let sig = if family {
+                format!("mismatch:expr:{}", TEMPLATE_CALL_FAMILY)
+            } else {
+                format!("tree-diff:{}:{}->{}@{}", origin, strip_count(&diff.left_kind), strip_count(&diff.right_kind), last_segment(&diff.path))
+            };
+            report.violation(
+                &sig,
+                &format!("[{}] re-read tree differs at {}: original {} | re-read {}", target.name(), diff.path, diff.left, diff.right),
+                witness.clone().set("target", target.name()).set("failure", failure_json(rt)),
+            );
+        }
+    }
+}
+
+/// The source line a diagnostic points at (diagnostics print `file(line)` or `file:line`)
+fn failing_line(text: &str, diag: &str) -> String {
+    let first = diag.lines().next().unwrap_or("");
+    let digits: String = first.chars().skip_while(|c| !c.is_ascii_digit()).take_while(|c| c.is_ascii_digit()).collect();
+    if let Ok(n) = digits.parse::<usize>() {
+        if let Some(l) = text.lines().nth(n.saturating_sub(1)) {
+            return l.trim().to_string();
+        }
+    }
+    String::new()
+}
+
+// ------------------------------------------------------------------------------------------------
+// Part 3: streams, sources (b) and (c), run, replay
+// ------------------------------------------------------------------------------------------------
+
+const LITERAL_SHAPES: usize = 8;
+
+fn literal_case(index: u64) -> Option<(ast::Expression, &'static str, String)> {
+    use ast::Expression as E;
+    let pool = literal_pool(true);
+    let li = (index as usize) / LITERAL_SHAPES;
+    if li >= pool.len() {
+        return None;
+    }
+    let l = E::Literal(pool[li].clone());
+    let (e, ctx, shape): (ast::Expression, &'static str, &str) = match (index as usize) % LITERAL_SHAPES {
+        0 => (l, "return", "alone"),
+        1 => (l, "init", "alone"),
+        2 => (E::UnaryOperation(ast::UnaryOp::Minus, bloc(l)), "return", "negated"),
+        3 => (E::BinaryOperation(ast::BinOp::Subtract, bloc(l.clone()), bloc(l)), "global", "a-a"),
+        4 => (E::Call(bloc(id("f")), Vec::new(), vec![loc(l.clone()), loc(l)]), "exprstmt", "arguments"),
+        5 => (E::ArraySubscript(bloc(id("a")), bloc(l)), "return", "index"),
+        6 => (E::Cast(Box::new(ast::TypeId::from(simple_type("float"))), bloc(l)), "return", "cast"),
+        _ => (l, "templatearg", "template argument"),
+    };
+    let mut c = Conv::new();
+    let kind = c.expr(&E::Literal(pool[li].clone()));
+    Some((e, ctx, format!("{}={} {}", kind.kind, kind.val, shape)))
+}
+
+/// Directed shapes next to the enumerations: combinations the random streams reach rarely
+fn directed_case(index: u64) -> Option<(ast::Module, String)> {
+    use ast::Expression as E;
+    let ret = |e: ast::Expression| wrap(&e, "return");
+    let m = match index {
+        // relational chain followed by a parenthesised operand
+        0 => (ret(E::BinaryOperation(ast::BinOp::GreaterThan, bloc(E::BinaryOperation(ast::BinOp::LessThan, bloc(id("a")), bloc(id("b")))), bloc(E::BinaryOperation(ast::BinOp::Add, bloc(id("c")), bloc(int_lit(1)))))), "a < b > (c + 1)"),
+        // member access on literals
+        1 => (ret(E::Member(bloc(int_lit(1)), ident("xxx"))), "1.xxx"),
+        2 => (ret(E::Member(bloc(E::Literal(ast::Literal::FloatUntyped(0.5))), ident("xxxx"))), "0.5.xxxx"),
+        3 => (ret(E::Member(bloc(E::Literal(ast::Literal::Float32(2.0))), ident("xx"))), "2.0f.xx"),
+        // nested template closing brackets
+        4 => {
+            let inner = ast::Type {
+                layout: ast::TypeLayout(ident("Texture2D"), vec![ast::ExpressionOrType::Type(ast::TypeId::from(simple_type("float4")))].into_boxed_slice()),
+                modifiers: ast::TypeModifierSet::new(),
+                location: SourceLocation::UNKNOWN,
+            };
+            let outer = ast::Type {
+                layout: ast::TypeLayout(ident("Tpl"), vec![ast::ExpressionOrType::Type(ast::TypeId::from(inner))].into_boxed_slice()),
+                modifiers: ast::TypeModifierSet::new(),
+                location: SourceLocation::UNKNOWN,
+            };
+            (
+                body_module(vec![st(ast::StatementKind::Var(ast::VarDef {
+                    local_type: outer.clone(),
+                    defs: vec![one_declarator("v", Some(ast::Initializer::Expression(loc(E::Cast(Box::new(ast::TypeId::from(outer)), bloc(id("x")))))))],
+                }))]),
+                "Tpl<Texture2D<float4>> v = (Tpl<Texture2D<float4>>)x",
+            )
+        }
+        // shifts next to template brackets
+        5 => (ret(E::Call(bloc(id("f")), vec![ast::ExpressionOrType::Expression(loc(E::BinaryOperation(ast::BinOp::LeftShift, bloc(int_lit(1)), bloc(int_lit(2)))))], vec![loc(id("x"))])), "f<1 << 2>(x)"),
+        // if / else chains the parser produces
+        6 => {
+            let leaf = |n: &str| Box::new(st(ast::StatementKind::Expression(id(n))));
+            let chain = st(ast::StatementKind::IfElse(
+                loc(id("a")),
+                leaf("s1"),
+                Box::new(st(ast::StatementKind::IfElse(loc(id("b")), leaf("s2"), Box::new(st(ast::StatementKind::If(loc(id("c")), leaf("s3"))))))),
+            ));
+            let inner_else = st(ast::StatementKind::If(loc(id("a")), Box::new(st(ast::StatementKind::IfElse(loc(id("b")), leaf("s1"), leaf("s2"))))));
+            let in_loop = st(ast::StatementKind::While(loc(id("a")), Box::new(st(ast::StatementKind::IfElse(loc(id("b")), leaf("s1"), Box::new(st(ast::StatementKind::If(loc(id("c")), leaf("s2")))))))));
+            (body_module(vec![chain, inner_else, in_loop]), "else-if chains")
+        }
+        // empty function body, empty block, lone semicolons, empty struct / enum / cbuffer / namespace
+        7 => (
+            module_of(vec![
+                ast::RootDefinition::Function(function("f", simple_type("void"), Vec::new(), Some(Vec::new()))),
+                ast::RootDefinition::Function(function("g", simple_type("void"), Vec::new(), None)),
+                ast::RootDefinition::Struct(ast::StructDefinition {
+                    name: lname("S1"),
+                    base_types: Vec::new(),
+                    template_params: ast::TemplateParamList(Vec::new()),
+                    members: Vec::new(),
+                }),
+                ast::RootDefinition::Enum(ast::EnumDefinition { name: lname("E0"), values: Vec::new() }),
+                ast::RootDefinition::ConstantBuffer(ast::ConstantBuffer {
+                    name: lname("CB0"),
+                    location_annotations: Vec::new(),
+                    members: Vec::new(),
+                    attributes: Vec::new(),
+                }),
+                ast::RootDefinition::Namespace(lname("ns"), Vec::new()),
+                ast::RootDefinition::Function(function("h", simple_type("void"), Vec::new(), Some(vec![st(ast::StatementKind::Empty), st(ast::StatementKind::Block(Vec::new()))]))),
+            ]),
+            "empty definitions",
+        ),
+        _ => return None,
+    };
+    Some((m.0, m.1.to_string()))
+}
+
+/// One generated case of source (a); a pure function of (stream, seed, index)
+pub fn generated_case(stream: &str, seed: u64, index: u64, report: &mut Report) {
+    let histogram = index % 16 == 0;
+    let meta = |desc: String| Meta { stream, seed, index, desc };
+    match stream {
+        "nest2" => {
+            let n = (all_slots().len() * all_forms().len()) as u64;
+            let context = if index < n { "return" } else { "init" };
+            if let Some((e, desc)) = nest2((index % n) as usize) {
+                report.count("shape:operator-pair");
+                check_expr(&e, context, &meta(desc), histogram, report);
+            }
+        }
+        "ctxforms" => {
+            // every operator form at the top of every context
+            let forms = all_forms();
+            let ci = (index as usize) / forms.len();
+            let context = if ci < CONTEXTS.len() { CONTEXTS[ci] } else { CTX_TEMPLATE_ARG };
+            let form = &forms[(index as usize) % forms.len()];
+            report.count("shape:operator-in-context");
+            check_expr(&form.build(usize::MAX, None, 0), context, &meta(format!("{} in {}", form.name(), context)), histogram, report);
+        }
+        "chain3" => {
+            if let Some((e, desc)) = chain3(index as usize) {
+                report.count("shape:chain-depth-3");
+                check_expr(&e, "return", &meta(desc), histogram, report);
+            }
+        }
+        "nest3" => {
+            let slots = all_slots();
+            let forms = all_forms();
+            let (e, desc) = nest3(index as usize, &slots, &forms);
+            report.count("shape:operator-triple");
+            check_expr(&e, "return", &meta(desc), histogram, report);
+        }
+        "literal" => {
+            if let Some((e, ctx, desc)) = literal_case(index) {
+                report.count("shape:literal-sweep");
+                check_expr(&e, ctx, &meta(desc), histogram, report);
+            }
+        }
+        "random" => {
+            let mut rng = Rng::for_case(seed, 0xA1, index);
+            let depth = 1 + (index % 6) as u32;
+            let context = if rng.chance(2, 5) {
+                "return"
+            } else if rng.chance(1, 12) {
+                CTX_TEMPLATE_ARG
+            } else {
+                CONTEXTS[rng.below(CONTEXTS.len())]
+            };
+            let allow_inf = true;
+            let mut g = Gen {
+                rng: &mut rng,
+                avoid: Some(AVOID_KNOWN),
+                allow_inf,
+            };
+            let mut e = g.expr(depth);
+            // the parser tries 2^k readings for k cast-like prefixes (C08's bound): keep k small
+            while count_casts(&e) > 5 || (context == CTX_TEMPLATE_ARG && is_loose(&e)) {
+                e = g.expr(depth);
+            }
+            if context != "return" && context != "exprstmt" && !context.starts_with("for-") && !matches!(context, "if" | "while" | "dowhile" | "switch" | "case") {
+                // positions that end at a comma: a top level sequence is a different construct there (see note in RULE)
+                while matches!(&e, ast::Expression::BinaryOperation(ast::BinOp::Sequence, _, _)) || count_casts(&e) > 5 || (context == CTX_TEMPLATE_ARG && is_loose(&e)) {
+                    e = g.expr(depth);
+                }
+            }
+            report.count(&format!("shape:random-depth-{}", depth));
+            check_expr(&e, context, &meta(format!("random depth {}", depth)), histogram, report);
+        }
+        "stmt" => {
+            let mut rng = Rng::for_case(seed, 0xA2, index);
+            let mut g = Gen {
+                rng: &mut rng,
+                avoid: Some(AVOID_KNOWN),
+                allow_inf: false,
+            };
+            let n = 1 + g.rng.below(4);
+            let body: Vec<ast::Statement> = (0..n).map(|_| g.statement(3)).collect();
+            let module = body_module(body);
+            report.count("shape:random-statements");
+            check_module(&module, &[Ft::Hlsl, Ft::Rssl, Ft::Msl], "stmt", &meta("random statements".into()).json(), histogram, report);
+        }
+        "decl" => {
+            let mut rng = Rng::for_case(seed, 0xA3, index);
+            let mut g = Gen {
+                rng: &mut rng,
+                avoid: Some(AVOID_KNOWN),
+                allow_inf: false,
+            };
+            let n = 1 + g.rng.below(3);
+            let module = module_of((0..n).map(|_| g.root_definition(2)).collect());
+            report.count("shape:random-declarations");
+            check_module(&module, &[Ft::Hlsl, Ft::Rssl, Ft::Msl], "decl", &meta("random declarations".into()).json(), histogram, report);
+        }
+        "directed" => {
+            if let Some((module, desc)) = directed_case(index) {
+                report.count("shape:directed");
+                check_module(&module, &[Ft::Hlsl, Ft::Rssl, Ft::Msl], &format!("directed-{}", index), &meta(desc).json(), true, report);
+            }
+        }
+        _ => {}
+    }
+}
+
+// ---- sources (b) and (c) ------------------------------------------------------------------------
+
+pub struct Inputs {
+    pub snippets: Vec<String>,
+    pub sets: Vec<corpus::CorpusSet>,
+    /// (set index, entry name)
+    pub entries: Vec<(usize, String)>,
+}
+
+impl Inputs {
+    pub fn load() -> Inputs {
+        let sets = corpus::load();
+        let mut entries = Vec::new();
+        for (i, s) in sets.iter().enumerate() {
+            for e in &s.entries {
+                entries.push((i, e.clone()));
+            }
+        }
+        Inputs {
+            snippets: corpus::test_snippets(),
+            sets,
+            entries,
+        }
+    }
+    fn count(&self) -> usize {
+        self.snippets.len() + self.entries.len()
+    }
+    /// (files, entry, defines, witness json identifying the input)
+    fn get(&self, i: usize) -> (Files, String, Vec<(String, String)>, Json) {
+        if i < self.snippets.len() {
+            let text = &self.snippets[i];
+            (Files::single("main.rssl", text), "main.rssl".to_string(), Vec::new(), Json::obj().set("input", "unit-test snippet").set("text", text.as_str()))
+        } else {
+            let (si, entry) = &self.entries[i - self.snippets.len()];
+            let set = &self.sets[*si];
+            (set.files.clone(), entry.clone(), set.defines.clone(), Json::obj().set("input", "corpus").set("corpus_set", set.name.as_str()).set("entry", entry.as_str()))
+        }
+    }
+    fn find(&self, w: &Json) -> Option<(Files, String, Vec<(String, String)>, Json)> {
+        if let Some(text) = w.get_str("text") {
+            return Some((Files::single("main.rssl", text), "main.rssl".to_string(), Vec::new(), Json::obj().set("input", "unit-test snippet").set("text", text)));
+        }
+        let set = w.get_str("corpus_set")?;
+        let entry = w.get_str("entry")?;
+        let s = self.sets.iter().find(|s| s.name == set)?;
+        Some((s.files.clone(), entry.to_string(), s.defines.clone(), Json::obj().set("input", "corpus").set("corpus_set", set).set("entry", entry)))
+    }
+}
+
+/// (b): the tree the HLSL exporter built and printed must be what the parser reads from the emitted text
+pub fn exporter_case(files: &Files, entry: &str, defines: &[(String, String)], tgt: Tgt, witness: &Json, report: &mut Report) {
+    let mut opts = Opts::new(tgt, Mode::NoPipeline);
+    opts.defines = defines.to_vec();
+    let outcome = rs::compile(files, entry, &opts);
+    let witness = witness.clone().set("source", "exporter").set("compile_target", tgt.name());
+    match &outcome {
+        Outcome::Ok(pipes) => {
+            for p in pipes {
+                let Some(tree) = &p.tree else {
+                    report.count("skipped:exporter:no-recorded-tree");
+                    continue;
+                };
+                // the recorded tree must be the tree that was printed (assumption)
+                match par::guard(|| rssl_formatter::format(tree, FTarget::Hlsl)) {
+                    Ok(Ok(t)) if t == p.source => {}
+                    _ => {
+                        report.count("skipped:exporter:recorded-tree-does-not-print-to-the-returned-source");
+                        continue;
+                    }
+                }
+                let rt = compare_with_text(tree, p.source.clone(), true, report);
+                report.evaluations += 1;
+                report.count(&format!("exporter:{}", tgt.name()));
+                verdict_module(&rt, Ft::Hlsl, "exporter", &witness, true, report);
+            }
+        }
+        other => report.count(&format!("skipped:exporter:compile-{}", other.class())),
+    }
+}
+
+fn parse_files(files: &Files, entry: &str, defines: &[(String, String)]) -> Front<ast::Module> {
+    let r = par::guard(|| {
+        use rssl::text::CompileErrorExt;
+        let mut sm = rssl::text::SourceManager::new();
+        let mut handler = rs::FilesHandler::new(files);
+        let mut all: Vec<(&str, &str)> = vec![("__HLSL_VERSION", "2021"), ("RSSL_TARGET_HLSL", "1"), ("RSSL_TARGET_MSL", "0")];
+        all.extend(defines.iter().map(|(a, b)| (a.as_str(), b.as_str())));
+        let tokens = match rssl::preprocess::preprocess(entry, &mut sm, &mut handler, &all) {
+            Ok(t) => t,
+            Err(e) => return Err(format!("{}", e.display(&sm))),
+        };
+        let tokens = rssl::preprocess::prepare_tokens(&tokens);
+        match rssl::parser::parse(&tokens) {
+            Ok(m) => Ok(m),
+            Err(e) => Err(format!("{}", e.display(&sm))),
+        }
+    });
+    match r {
+        Ok(Ok(m)) => Front::Ok(m),
+        Ok(Err(d)) => Front::Diag(d),
+        Err(c) => Front::Panic(c),
+    }
+}
+
+fn parser_definition(def: &ast::RootDefinition, path: &str, witness: &Json, report: &mut Report) {
+    let mut c = Conv::new();
+    let _ = c.root(def);
+    if c.ambiguous > 0 || !c.unsupported.is_empty() {
+        if let ast::RootDefinition::Namespace(_, defs) = def {
+            // look inside: the members that are printable are still checked
+            for (i, d) in defs.iter().enumerate() {
+                parser_definition(d, &format!("{}.{}", path, i), witness, report);
+            }
+            return;
+        }
+        if c.ambiguous > 0 {
+            report.count("skipped:parser-tree:has-ambiguous-node");
+        } else {
+            report.count(&format!("skipped:parser-tree:excluded-node:{}", c.unsupported[0]));
+        }
+        return;
+    }
+    let module = module_of(vec![def.clone()]);
+    report.count("parser-tree:definitions-checked");
+    check_module(&module, &[Ft::Hlsl, Ft::Rssl], "parser", &witness.clone().set("source", "parser").set("definition", path), true, report);
+}
+
+/// (c): every printable root definition the parser produced
+pub fn parser_case(files: &Files, entry: &str, defines: &[(String, String)], witness: &Json, report: &mut Report) {
+    match parse_files(files, entry, defines) {
+        Front::Ok(module) => {
+            report.count("parser-tree:inputs-parsed");
+            for (i, def) in module.root_definitions.iter().enumerate() {
+                parser_definition(def, &i.to_string(), witness, report);
+            }
+        }
+        Front::Diag(_) => report.count("skipped:parser-tree:input-does-not-parse"),
+        Front::Panic(c) => report.count(&format!("skipped:parser-tree:panic(C08):{}", c.signature())),
+    }
+}
+
+// ---- plan ---------------------------------------------------------------------------------------
+
+struct Plan {
+    /// (stream, count)
+    streams: Vec<(&'static str, u64)>,
+}
+
+impl Plan {
+    fn new(tier: Tier, corpus_inputs: u64) -> Plan {
+        let n2 = (all_slots().len() * all_forms().len()) as u64;
+        let c3 = {
+            let n = chain_forms().len() as u64;
+            n * n * n
+        };
+        let n3 = nest3_count() as u64;
+        Plan {
+            streams: vec![
+                ("exporter", corpus_inputs * 2),
+                ("parser", corpus_inputs),
+                ("directed", 8),
+                ("literal", (literal_pool(true).len() * LITERAL_SHAPES) as u64),
+                ("ctxforms", ((CONTEXTS.len() + 1) * all_forms().len()) as u64),
+                ("nest2", n2 * 2),
+                ("chain3", c3),
+                ("nest3", tier.pick(30_000, n3)),
+                ("stmt", tier.pick(8_000, 80_000)),
+                ("decl", tier.pick(8_000, 80_000)),
+                ("random", tier.pick(60_000, 900_000)),
+            ],
+        }
+    }
+    fn total(&self) -> u64 {
+        self.streams.iter().map(|s| s.1).sum()
+    }
+    fn locate(&self, mut index: u64) -> (&'static str, u64) {
+        for (name, n) in &self.streams {
+            if index < *n {
+                return (name, index);
+            }
+            index -= n;
+        }
+        ("none", 0)
+    }
+}
+
+fn run(ctx: &Ctx) -> Report {
+    let inputs = Inputs::load();
+    let plan = Plan::new(ctx.tier, inputs.count() as u64);
+    let n3 = nest3_count() as u64;
+    let mut report = par::run_cases(ctx, plan.total(), |index, report| {
+        let (stream, i) = plan.locate(index);
+        let started = std::time::Instant::now();
+        match stream {
+            "exporter" => {
+                let (files, entry, defines, w) = inputs.get((i / 2) as usize);
+                let tgt = if i % 2 == 0 { Tgt::Dx } else { Tgt::Vk };
+                exporter_case(&files, &entry, &defines, tgt, &w, report);
+            }
+            "parser" => {
+                let (files, entry, defines, w) = inputs.get(i as usize);
+                parser_case(&files, &entry, &defines, &w, report);
+            }
+            "nest3" => {
+                // quick: a seed dependent sample of the enumeration (stride coprime with its size); thorough: all of it
+                let pos = if ctx.tier == Tier::Thorough { i } else { (i.wrapping_mul(1_000_003).wrapping_add(ctx.seed % n3)) % n3 };
+                generated_case("nest3", ctx.seed, pos, report);
+            }
+            s => generated_case(s, ctx.seed, i, report),
+        }
+        let took = started.elapsed().as_secs_f64();
+        if took > 2.0 {
+            // not a verdict: only tells the reader where the time went
+            report.notes.push(format!("slow case: stream {} index {} took {:.1}s", stream, i, took));
+        }
+    });
+    let run = report.counters.get("cases_run").copied().unwrap_or(0);
+    if run >= plan.total() {
+        // operator pairs, chains (and in thorough the triples) were enumerated completely
+        report.exhaustive = Some(true);
+        report.notes.push(format!(
+            "enumerated completely: {} (outer slot, inner operator) pairs x 2 contexts, {} unary/cast/postfix chains of depth 3{}",
+            all_slots().len() * all_forms().len(),
+            chain_forms().len().pow(3),
+            if ctx.tier == Tier::Thorough { format!(", all {} depth-3 nestings", n3) } else { format!(", sample of 30000 of the {} depth-3 nestings", n3) }
+        ));
+    }
+    if inputs.snippets.len() < 200 || inputs.entries.is_empty() {
+        report.inconclusive("the repository corpus (unit-test snippets / tests entries) was not found");
+    }
+    report
+}
+
+fn replay(_ctx: &Ctx, w: &Json) -> Report {
+    let mut report = Report::new();
+    let source = w.get_str("source").unwrap_or("");
+    let seed: u64 = w.get_str("seed").and_then(|s| s.parse().ok()).unwrap_or(0);
+    let index = w.get("index").and_then(|i| i.as_i64()).unwrap_or(0) as u64;
+    let stream = w.get_str("stream").unwrap_or("").to_string();
+    match source {
+        "generated" => {
+            let context = w.get_str("context").unwrap_or("return").to_string();
+            let stored = w.get("minimal").or_else(|| w.get("expr")).and_then(cmp::expr_from_json);
+            if let Some(e) = stored {
+                let meta = Meta {
+                    stream: &stream,
+                    seed,
+                    index,
+                    desc: w.get_str("shape").unwrap_or("").to_string(),
+                };
+                check_expr(&e, &context, &meta, false, &mut report);
+            } else {
+                generated_case(&stream, seed, index, &mut report);
+            }
+        }
+        "exporter" | "parser" => {
+            let inputs = Inputs::load();
+            match inputs.find(w) {
+                Some((files, entry, defines, base)) => {
+                    if source == "exporter" {
+                        exporter_case(&files, &entry, &defines, Tgt::from_name(w.get_str("compile_target").unwrap_or("")), &base, &mut report);
+                    } else {
+                        parser_case(&files, &entry, &defines, &base, &mut report);
+                    }
+                }
+                None => report.inconclusive("witness input not found"),
+            }
+        }
+        _ => report.inconclusive("witness has no known source"),
+    }
+    report
+}
